@@ -1006,3 +1006,301 @@ Proof.
       rewrite (name_lookup_absent _ _ HT k HA). cbn.
       exists m, (-1). split; [reflexivity|]. split; [now right|]. split; [auto|]. intros H; now elim H.
 Qed.
+
+(* ------------------------------------------------------------------------- *)
+(** * cgi_calculate_keysize *)
+
+Definition blen (d : Z) : Z := if d =? 0 then 0 else Z.log2 d + 1.
+
+Lemma bit_table_ok : forallb (fun d => nthZ BitLengthTable d 0 =? blen d)
+  (map Z.of_nat (seq 0 32)) = true.
+Proof. vm_compute. reflexivity. Qed.
+
+Lemma bit_table d : 0 <= d < 32 -> nthZ BitLengthTable d 0 = blen d.
+Proof.
+  intros H. pose proof bit_table_ok as Hall. rewrite forallb_forall in Hall.
+  apply Z.eqb_eq. apply Hall. apply in_map_iff. exists (Z.to_nat d). split; [lia|]. apply in_seq. lia.
+Qed.
+
+Lemma blen_div64 d : 32 <= d -> blen d = 6 + blen (d / 64).
+Proof.
+  intros H. unfold blen. destruct (Z.eqb_spec d 0); [lia|].
+  destruct (Z.eqb_spec (d / 64) 0) as [E|E].
+  - assert (d < 64) by lia.
+    assert (Z.log2 d = 5); [|lia]. apply Z.log2_unique; [lia|]. change (2 ^ 5) with 32. change (2 ^ Z.succ 5) with 64. lia.
+  - assert (64 <= d) by lia.
+    change 64 with (2 ^ 6) at 1. rewrite <- Z.shiftr_div_pow2 by lia. rewrite Z.log2_shiftr by lia.
+    assert (6 <= Z.log2 d) by (change 6 with (Z.log2 64); apply Z.log2_le_mono; lia). lia.
+Qed.
+
+Lemma bit_length_loop_spec : forall fuel d bits, 0 <= d < 32 * 64 ^ Z.of_nat fuel ->
+  bit_length_loop fuel d bits = bits + blen d.
+Proof.
+  induction fuel as [|f IH]; intros d bits Hd; cbn [bit_length_loop].
+  - change (64 ^ Z.of_nat 0) with 1 in Hd. rewrite bit_table by lia. reflexivity.
+  - destruct (Z.leb_spec 32 d) as [H|H].
+    + rewrite IH. rewrite (blen_div64 d H). lia.
+      rewrite Nat2Z.inj_succ, Z.pow_succ_r in Hd by lia.
+      split; [apply Z.div_pos; lia|]. apply Z.div_lt_upper_bound; lia.
+    + rewrite bit_table by lia. reflexivity.
+Qed.
+
+Lemma lor_ge_l a b : 0 <= a -> 0 <= b -> a <= Z.lor a b.
+Proof.
+  intros Ha Hb.
+  assert (D : Z.land a (Z.ldiff b a) = 0) by (rewrite Z.land_comm; apply Z.land_ldiff).
+  assert (E : Z.lor a b = a + Z.ldiff b a).
+  { rewrite (Z.add_nocarry_lxor _ _ D), (Z.lxor_lor _ _ D).
+    apply Z.bits_inj'. intros n Hn. rewrite !Z.lor_spec, Z.ldiff_spec.
+    destruct (Z.testbit a n), (Z.testbit b n); reflexivity. }
+  rewrite E.
+  assert (0 <= Z.ldiff b a) by (apply Z.ldiff_nonneg; now left). lia.
+Qed.
+
+Lemma keysize_spec n : 0 <= n < 2 ^ 58 ->
+  exists p, 3 <= p <= 60 /\ calculate_keysize n = 2 ^ p /\ n <= 2 ^ p.
+Proof.
+  intros Hn. unfold calculate_keysize, MAP_MINSIZE. change (8 - 1) with 7.
+  set (m := Z.lor n 8 - 1). set (x := Z.lor m 7).
+  assert (Hn8 : n <= Z.lor n 8) by (apply lor_ge_l; lia).
+  assert (H8 : 8 <= Z.lor n 8) by (rewrite Z.lor_comm; apply lor_ge_l; lia).
+  assert (Hm : 7 <= m) by (unfold m; lia).
+  assert (Hx7 : 7 <= x) by (unfold x; rewrite Z.lor_comm; apply lor_ge_l; lia).
+  assert (Hxm : m <= x) by (unfold x; apply lor_ge_l; lia).
+  assert (Hlog : Z.log2 x <= 57).
+  { unfold x. rewrite Z.log2_lor by lia. change (Z.log2 7) with 2.
+    assert (Z.log2 m <= 57); [|lia].
+    assert (Z.log2 m <= Z.log2 (Z.lor n 8)) by (apply Z.log2_le_mono; unfold m; lia).
+    rewrite Z.log2_lor in H by lia. change (Z.log2 8) with 3 in H.
+    assert (Z.log2 n <= 57); [|lia].
+    destruct (Z.eq_dec n 0) as [->|]; [cbn; lia|].
+    assert (Z.log2 n < 58); [|lia]. apply Z.log2_lt_pow2; lia. }
+  assert (Hlog2 : 2 <= Z.log2 x) by (change 2 with (Z.log2 7); apply Z.log2_le_mono; lia).
+  unfold bit_length. rewrite bit_length_loop_spec.
+  2:{ split; [lia|]. assert (x < 2 ^ 58); [|change (32 * 64 ^ Z.of_nat 12) with (2 ^ 77);
+        assert (2 ^ 58 < 2 ^ 77) by (apply Z.pow_lt_mono_r; lia); lia].
+      apply Z.log2_lt_pow2; lia. }
+  unfold blen. destruct (Z.eqb_spec x 0); [lia|]. rewrite Z.add_0_l.
+  exists (Z.log2 x + 1). split; [lia|]. rewrite Z.shiftl_1_l. split; [reflexivity|].
+  pose proof (Z.log2_spec x ltac:(lia)) as Hs. replace (Z.succ (Z.log2 x)) with (Z.log2 x + 1) in Hs by lia.
+  unfold m in *. lia.
+Qed.
+
+(* ------------------------------------------------------------------------- *)
+(** * A fresh table, cgi_build_indices, cgi_resize_hashmap *)
+
+Lemma count_nonempty_repeat n : count_nonempty (repeat (-1) n) = 0.
+Proof. unfold count_nonempty, lenZ. induction n as [|n IH]; cbn; [reflexivity|exact IH]. Qed.
+
+Lemma TInv_ext m m' n : TInv m n -> m_size m' = m_size m -> m_indices m' = m_indices m ->
+  m_entries m' = m_entries m -> TInv m' n.
+Proof.
+  intros HI Hs Hi He.
+  assert (Hgi : forall i, get_index m' i = get_index m i) by (intros; unfold get_index; now rewrite Hi).
+  assert (Hge : forall i, get_entry m' i = get_entry m i) by (intros; unfold get_entry; now rewrite He).
+  assert (Hmask : mask_of m' = mask_of m) by (unfold mask_of; now rewrite Hs).
+  constructor.
+  - rewrite Hs. apply (ti_pow _ _ HI).
+  - rewrite Hi, Hs. apply (ti_len _ _ HI).
+  - rewrite He. apply (ti_n _ _ HI).
+  - rewrite Hs. apply (ti_nlt _ _ HI).
+  - rewrite Hs. intros i Hi0. rewrite !Hgi, Hge. apply (ti_slot _ _ HI i Hi0).
+  - rewrite Hs. intros i j. rewrite !Hgi. apply (ti_inj _ _ HI).
+  - intros ix Hix. rewrite Hge, Hmask. intros Hl. destruct (ti_reach _ _ HI ix Hix Hl) as [k [H1 H2]].
+    exists k. rewrite Hgi. split; [assumption|]. intros j Hj. rewrite Hgi. auto.
+  - intros ix Hix. rewrite Hge. apply (ti_ent _ _ HI ix Hix).
+  - intros i j. rewrite !Hge. apply (ti_keys _ _ HI).
+  - rewrite Hi. apply (ti_fill _ _ HI).
+Qed.
+
+Lemma TInv_fresh size u es used p : 3 <= p <= 60 -> size = 2 ^ p ->
+  TInv (mkM false size u 0 (repeat MAPIX_EMPTY (Z.to_nat size)) es used) 0.
+Proof.
+  intros Hp Hs. assert (Hpos : 0 < size) by (subst; apply pow2_pos; lia).
+  assert (Hgi : forall i, 0 <= i < size ->
+            get_index (mkM false size u 0 (repeat MAPIX_EMPTY (Z.to_nat size)) es used) i = -1).
+  { intros i Hi. unfold get_index. cbn [m_indices]. apply nthZ_repeat. lia. }
+  constructor; cbn [m_size m_indices m_entries].
+  - exists p. split; assumption.
+  - unfold lenZ. rewrite repeat_length. lia.
+  - unfold lenZ. lia.
+  - unfold USABLE_FRACTION. lia.
+  - intros i Hi. left. now apply Hgi.
+  - intros i j Hi Hj H0. rewrite Hgi in H0 by assumption. lia.
+  - intros ix Hix. lia.
+  - intros ix Hix. lia.
+  - intros ix jx Hix. lia.
+  - unfold MAPIX_EMPTY. rewrite count_nonempty_repeat. lia.
+Qed.
+
+Lemma upd_same {A} (l : list A) : forall n d, (n < length l)%nat -> upd l n (nth n l d) = l.
+Proof. induction l as [|x r IH]; intros [|n] d H; cbn in *; try lia; [reflexivity|]. f_equal. apply IH. lia. Qed.
+
+Lemma updZ_same {A} (l : list A) i d : 0 <= i < lenZ l -> updZ l i (nthZ l i d) = l.
+Proof.
+  intros H. unfold updZ, nthZ. destruct (Z.ltb_spec i 0); [lia|]. apply upd_same. unfold lenZ in H. lia.
+Qed.
+
+Lemma build_indices_spec : forall rest mm c,
+  TInv mm c ->
+  (forall j, (j < length rest)%nat -> nth j rest blank_entry = get_entry mm (c + Z.of_nat j)) ->
+  c + lenZ rest <= USABLE_FRACTION (m_size mm) -> c + lenZ rest <= lenZ (m_entries mm) ->
+  (forall i, 0 <= i < c + lenZ rest ->
+     live (get_entry mm i) = true /\ e_hash (get_entry mm i) = hash_cstr (e_key (get_entry mm i)) /\
+     0 <= e_val (get_entry mm i)) ->
+  (forall i j, 0 <= i < c + lenZ rest -> 0 <= j < c + lenZ rest ->
+     e_key (get_entry mm i) = e_key (get_entry mm j) -> i = j) ->
+  exists mm', build_indices mm rest c = Some mm' /\ TInv mm' (c + lenZ rest) /\
+     m_entries mm' = m_entries mm /\ m_size mm' = m_size mm /\ m_usable mm' = m_usable mm.
+Proof.
+  induction rest as [|ep rest IH]; intros mm c HT Hnth Hu Hl Hok Hkeys.
+  - exists mm. cbn [build_indices]. unfold lenZ. cbn [length]. rewrite Z.add_0_r. repeat split; auto.
+  - unfold lenZ in *. cbn [length] in *. rewrite Nat2Z.inj_succ in *.
+    pose proof (ti_n _ _ HT) as Hc.
+    assert (Hep : ep = get_entry mm c).
+    { specialize (Hnth 0%nat ltac:(lia)). cbn [nth] in Hnth. rewrite Hnth. f_equal. lia. }
+    destruct (Hok c ltac:(lia)) as [Hlive [Hhash Hval]].
+    cbn [build_indices].
+    assert (Hr : 0 <= e_hash ep < W) by (rewrite Hep, Hhash; apply hash_cstr_range).
+    destruct (build_probe_spec _ _ HT (e_hash ep) Hr) as [s [k [Hloop [Hs [Hemp [Hks Hkb]]]]]].
+    rewrite Hloop.
+    assert (Hnar : narrow (m_size mm) c = c) by (apply narrow_id; [apply (ti_pow _ _ HT)|lia]).
+    set (mm1 := set_index mm s c).
+    assert (HT1 : TInv mm1 (c + 1)).
+    { apply TInv_place with (m := mm) (s := s) (e := get_entry mm c); try assumption; try reflexivity; try lia.
+      - unfold mm1. cbn. now rewrite Hnar.
+      - unfold mm1. cbn [m_entries set_index]. unfold get_entry. symmetry. apply updZ_same. lia.
+      - intros ix Hix _ Hk. assert (ix = c); [|lia]. apply Hkeys; try lia. exact Hk.
+      - exists k. rewrite <- Hep. split; assumption. }
+    destruct (IH mm1 (c + 1) HT1) as [mm' [Hb [HT' [He [Hsz Hus]]]]].
+    + intros j Hj. specialize (Hnth (S j) ltac:(lia)). cbn [nth] in Hnth. rewrite Hnth.
+      unfold get_entry, mm1. cbn [m_entries set_index]. f_equal. lia.
+    + change (m_size mm1) with (m_size mm). lia.
+    + change (m_entries mm1) with (m_entries mm). lia.
+    + intros i Hi. change (get_entry mm1 i) with (get_entry mm i). apply Hok. lia.
+    + intros i j Hi Hj. change (get_entry mm1 i) with (get_entry mm i).
+      change (get_entry mm1 j) with (get_entry mm j). apply Hkeys; lia.
+    + exists mm'. split; [exact Hb|]. split.
+      * replace (c + Z.succ (Z.of_nat (length rest))) with (c + 1 + Z.of_nat (length rest)) by lia. exact HT'.
+      * repeat split; assumption.
+Qed.
+
+Lemma filter_all {A} (f : A -> bool) l : length (filter f l) = length l -> filter f l = l.
+Proof.
+  induction l as [|x r IH]; cbn; [reflexivity|]. destruct (f x) eqn:E; cbn; intros H.
+  - f_equal. apply IH. lia.
+  - pose proof (filter_length_le f r). lia.
+Qed.
+
+Lemma filter_keys_nodup : forall l,
+  (forall i j, (i < length l)%nat -> (j < length l)%nat ->
+     live (nth i l blank_entry) = true -> live (nth j l blank_entry) = true ->
+     e_key (nth i l blank_entry) = e_key (nth j l blank_entry) -> i = j) ->
+  NoDup (map e_key (filter live l)).
+Proof.
+  induction l as [|x r IH]; intros H; cbn [filter map]; [constructor|].
+  assert (Hr : NoDup (map e_key (filter live r))).
+  { apply IH. intros i j Hi Hj Hli Hlj Hk. assert (S i = S j); [|lia]. apply H; cbn [length nth]; try lia; assumption. }
+  destruct (live x) eqn:Hx; [|exact Hr]. cbn [map]. constructor; [|exact Hr].
+  intros Hin. apply in_map_iff in Hin. destruct Hin as [e [Hk He]]. apply filter_In in He. destruct He as [He Hle].
+  destruct (In_nth _ _ blank_entry He) as [j [Hj Hnj]].
+  assert (0%nat = S j); [|lia]. apply H; cbn [length nth]; try lia; try assumption; rewrite Hnj; congruence.
+Qed.
+
+Lemma resize_moved m : Inv m ->
+  (if m_nentries m =? m_used m
+   then firstn (Z.to_nat (m_used m)) (m_entries m)
+   else firstn (Z.to_nat (m_used m)) (filter live (firstn (Z.to_nat (m_nentries m)) (m_entries m))))
+  = filter live (live_entries m) /\ lenZ (filter live (live_entries m)) = m_used m.
+Proof.
+  intros HI. pose proof (inv_used _ HI) as Hu. unfold count_live in Hu. split; [|now rewrite Hu].
+  pose proof (live_entries_len m (ti_n _ _ (inv_t _ HI))) as Hlen.
+  destruct (Z.eqb_spec (m_nentries m) (m_used m)) as [E|E].
+  - rewrite <- E. fold (live_entries m). symmetry. apply filter_all. unfold lenZ in *. lia.
+  - fold (live_entries m). apply firstn_all2. unfold lenZ in Hu. lia.
+Qed.
+
+Lemma resize_spec m newsize p : Inv m -> 3 <= p <= 60 -> newsize = 2 ^ p ->
+  m_used m < USABLE_FRACTION newsize ->
+  exists m', resize m newsize = Some (m', 0) /\ Inv m' /\ 0 < m_usable m' /\
+             forall k, find_val m' k = find_val m k.
+Proof.
+  intros HI Hp Hns Hroom. pose proof (inv_t _ HI) as HT. pose proof (ti_n _ _ HT) as Hn.
+  assert (Hpos : 0 < newsize) by (subst; apply pow2_pos; lia).
+  unfold resize. destruct (Z.leb_spec newsize 0); [lia|].
+  destruct (resize_moved m HI) as [Hmoved Hmlen]. cbv zeta. rewrite Hmoved.
+  set (moved := filter live (live_entries m)) in *.
+  set (U' := USABLE_FRACTION newsize) in *.
+  set (newentries := moved ++ skipn (length moved) (m_entries (new_keys_object newsize))).
+  assert (Hused0 : 0 <= m_used m) by (rewrite <- Hmlen; unfold lenZ; lia).
+  assert (Hnelen : lenZ newentries = U').
+  { unfold newentries, lenZ. rewrite app_length, skipn_length. cbn [m_entries new_keys_object].
+    rewrite repeat_length. fold U'. unfold lenZ in Hmlen. lia. }
+  (* facts about the entries that move *)
+  assert (Hin : forall e, In e moved <-> exists ix, 0 <= ix < m_nentries m /\ e = get_entry m ix /\ live e = true).
+  { intros e. unfold moved. rewrite filter_In. split.
+    - intros [He Hl]. destruct (In_nth _ _ blank_entry He) as [j [Hj Hnj]].
+      pose proof (live_entries_len m Hn) as Hlen. unfold lenZ in Hlen.
+      exists (Z.of_nat j). split; [lia|]. split; [|assumption].
+      rewrite <- live_entries_nth by lia. now rewrite Nat2Z.id.
+    - intros [ix [Hix [-> Hl]]]. split; [|assumption].
+      rewrite <- live_entries_nth by assumption. apply nth_In.
+      pose proof (live_entries_len m Hn) as Hlen. unfold lenZ in Hlen. lia. }
+  assert (Hnd : NoDup (map e_key moved)).
+  { apply filter_keys_nodup. pose proof (live_entries_len m Hn) as Hlen. unfold lenZ in Hlen.
+    intros i j Hi Hj. rewrite <- (Nat2Z.id i), <- (Nat2Z.id j).
+    rewrite !live_entries_nth by lia. intros Hli Hlj Hk.
+    assert (Z.of_nat i = Z.of_nat j); [|lia]. apply (ti_keys _ _ HT); try lia; assumption. }
+  set (nk1 := mkM false newsize (m_usable (new_keys_object newsize)) 0 (m_indices (new_keys_object newsize))
+                  newentries (m_used m)).
+  assert (HT1 : TInv nk1 0) by (apply TInv_fresh with (p := p); assumption).
+  assert (Hge1 : forall j, (j < length moved)%nat -> get_entry nk1 (Z.of_nat j) = nth j moved blank_entry).
+  { intros j Hj. unfold get_entry, nthZ. cbn [m_entries nk1]. destruct (Z.ltb_spec (Z.of_nat j) 0); [lia|].
+    rewrite Nat2Z.id. unfold newentries. now rewrite app_nth1. }
+  assert (Hmovedlen : Z.of_nat (length moved) = m_used m) by exact Hmlen.
+  destruct (build_indices_spec moved nk1 0 HT1) as [nk2 [Hb [HT2 [He2 [Hs2 Hu2]]]]].
+  - intros j Hj. rewrite Z.add_0_l. symmetry. now apply Hge1.
+  - cbn [m_size nk1]. unfold lenZ. fold U'. lia.
+  - cbn [m_entries nk1]. rewrite Hnelen. unfold lenZ. lia.
+  - intros i Hi. rewrite Z.add_0_l in Hi. unfold lenZ in Hi.
+    rewrite <- (Z2Nat.id i) by lia. rewrite Hge1 by lia.
+    assert (Hine : In (nth (Z.to_nat i) moved blank_entry) moved) by (apply nth_In; lia).
+    apply Hin in Hine. destruct Hine as [ix [Hix [Heq Hl]]]. rewrite Heq in *.
+    destruct (ti_ent _ _ HT ix Hix Hl) as [H1 H2]. repeat split; assumption.
+  - intros i j Hi Hj. rewrite Z.add_0_l in Hi, Hj. unfold lenZ in Hi, Hj.
+    rewrite <- (Z2Nat.id i), <- (Z2Nat.id j) by lia. rewrite !Hge1 by lia. intros Hk.
+    assert (Z.to_nat i = Z.to_nat j); [|lia].
+    apply (proj1 (NoDup_nth (map e_key moved) []) Hnd); try (rewrite map_length; lia).
+    rewrite !(nth_indep _ [] (e_key blank_entry)) by (rewrite map_length; lia).
+    rewrite !map_nth. exact Hk.
+  - rewrite Hb. rewrite Z.add_0_l in HT2. unfold lenZ in HT2. rewrite Hmovedlen in HT2.
+    eexists. split; [reflexivity|].
+    match goal with |- Inv ?mm /\ _ => set (m' := mm) end.
+    assert (HT' : TInv m' (m_used m)) by (apply TInv_ext with (m := nk2); [assumption|reflexivity..]).
+    assert (Hge' : forall j, (j < length moved)%nat -> get_entry m' (Z.of_nat j) = nth j moved blank_entry).
+    { intros j Hj. rewrite <- Hge1 by assumption. unfold get_entry. cbn [m_entries m']. now rewrite He2. }
+    assert (HI' : Inv m').
+    { constructor.
+      - reflexivity.
+      - exact HT'.
+      - cbn [m_entries m_size m']. rewrite He2. exact Hnelen.
+      - cbn [m_usable m_size m_nentries m']. rewrite Hu2. reflexivity.
+      - cbn [m_used m']. unfold live_entries. cbn [m_nentries m_entries m']. rewrite He2.
+        cbn [m_entries nk1]. unfold newentries.
+        replace (Z.to_nat (m_used m)) with (length moved + 0)%nat by lia.
+        rewrite firstn_app_2. cbn [firstn]. rewrite app_nil_r.
+        unfold count_live, moved. rewrite (filter_all live (filter live (live_entries m))).
+        + fold moved. lia.
+        + f_equal. apply filter_all. clear. induction (live_entries m) as [|x r IH]; cbn; [reflexivity|].
+          destruct (live x) eqn:E; cbn; [rewrite E; cbn; now f_equal|exact IH]. }
+    split; [exact HI'|]. split.
+    + cbn [m_usable m']. rewrite Hu2. cbn [m_usable nk1 new_keys_object]. fold U'. lia.
+    + intros k. apply find_val_intro; [exact HT'|]. change (m_nentries m') with (m_used m).
+      destruct (find_val_cases m k Hn) as [[ix [Hix [Hl [Hk Hv]]]]|[HA Hva]].
+      * left. assert (Hine : In (get_entry m ix) moved) by (apply Hin; exists ix; auto).
+        destruct (In_nth _ _ blank_entry Hine) as [j [Hj Hnj]].
+        exists (Z.of_nat j). rewrite Hge' by assumption. rewrite Hnj. repeat split; try assumption; lia.
+      * right. split; [|assumption]. intros j Hj. rewrite <- (Z2Nat.id j) by lia. rewrite Hge' by lia.
+        intros _. assert (Hine : In (nth (Z.to_nat j) moved blank_entry) moved) by (apply nth_In; lia).
+        apply Hin in Hine. destruct Hine as [ix [Hix [Heq Hl]]]. rewrite Heq. apply HA; [assumption|]. now rewrite <- Heq.
+Qed.
